@@ -28,6 +28,9 @@ def run(repo, run, tier):
     # 'does not depend on the scale of the event function': the vectorised root search decides sign relations from signs, not from products that underflow
     from .c14 import product_sign_tests
     product_sign_tests(repo, run, rule_id="C08.6", funcs=("brentsrootvec",))
+    # 'however many events are monitored': the first crossing of one event must not be dropped by the duplicate filter reading another event's record
+    from .c07 import sentinel
+    sentinel(repo, run, m, rule_id="C08.7")
 
 
 def pruning(repo, run, m):
